@@ -11,6 +11,7 @@ from typing import Any
 
 from exabgp.bgp.message import Action
 from exabgp.bgp.message.update.attribute import AttributeCollection
+from exabgp.bgp.message.update.collection import validate_announce_nlri
 from exabgp.bgp.message.update.nlri import CIDR, INET, IPVPN, Label
 from exabgp.bgp.message.update.nlri.settings import INETSettings
 from exabgp.configuration.schema import Container, ActionTarget, ActionOperation
@@ -121,8 +122,12 @@ def route(tokeniser: Any) -> list[Route]:
             raise ValueError('unknown command "{}"'.format(command))
 
     # Create immutable NLRI from settings
-    # Note: Validation (nexthop, labels, RD) happens at wire format generation time
     nlri = nlri_class.from_settings(settings)
+    # what the wire format generation would refuse (no nexthop, labels or RD) is refused here
+    if tokeniser.announce:
+        error = validate_announce_nlri(nlri, settings.nexthop)
+        if error:
+            raise ValueError(error)
     static_route = Route(nlri, attributes, nexthop=settings.nexthop)
 
     return list(ParseStatic.split(static_route))
@@ -266,6 +271,11 @@ def attributes(tokeniser: Any) -> list[Route]:
 
         # Create immutable NLRI from settings
         new_nlri = nlri_class.from_settings(settings)
+        # what the wire format generation would refuse (no nexthop, labels or RD) is refused here
+        if tokeniser.announce:
+            error = validate_announce_nlri(new_nlri, settings.nexthop)
+            if error:
+                raise ValueError(error)
         routes.append(Route(new_nlri, attr, nexthop=settings.nexthop))
 
     # If 'nlri' keyword was present but no prefixes followed, return attributes-only
